@@ -182,6 +182,7 @@ package imports
 //@   ensures old(r.err) != nil ==> r.err == old(r.err)
 //@   ensures old(r.eof) ==> r.eof
 //@   ensures r.eof ==> gPos == gLen
+//@   ensures old(r.err) == nil && r.err == nil && !r.eof ==> r.peek != 0 && !identByte(r.peek)
 
 //@ func (*importReader).readIdent
 //@   requires r != nil && r.b != nil && bufIsB(r.buf, gIn, gPos, gBase) && peekOK(r.buf, r.peek) && (r.eof ==> gPos == gLen) && r.nerr + 2 <= 10000
